@@ -201,7 +201,8 @@ def run(ctx, chk):
         names = ["type with result id -> types.append_id", "constant with result id -> constants.append_id",
                  "type referring to an earlier type and constant -> types.append_id after both", "function definition lifted",
                  "result-producing non-phi instruction -> ops.append", "op info (token, type of the result type)", "block appended with phi argument types and the last instruction as terminator",
-                 "result-producing instruction of the second block -> ops.append", "its op info", "second block appended without arguments (it has no phi)"]
+                 "result-producing instruction of the second block -> ops.append", "its op info", "second block appended without arguments (it has no phi)",
+                 "second function definition lifted", "its block appended to a new block storage"]
         for k, (nm, w) in enumerate(zip(names, want_ev)):
             g = got_ev[k] if k < len(got_ev) else None
             chk.check(R2, g == w, "convert:event %d (%s)" % (k, nm), "on the abstract module the walk performs %s, expected %s" % (str(g)[:220], str(w)[:220]), WC,
@@ -218,11 +219,18 @@ def run(ctx, chk):
         st_ok = ok and all(isinstance(m.get(k_), tuple) and m[k_][:2] == ("contents", k_) for k_ in ("types", "constants", "ops"))
         chk.check(R2, st_ok, "convert:storages-handed-over", "types/constants/ops are %s" % [m.get(k_) for k_ in ("types", "constants", "ops")], WC)
         fs = m.get("functions")
-        f_ok = ok and isinstance(fs, tuple) and fs[0] == "list" and len(fs[1]) == 1 and fs[1][0][0] == "struct" and fs[1][0][1] == "Function"
+        f_ok = ok and isinstance(fs, tuple) and fs[0] == "list" and len(fs[1]) == 2 and all(x[0] == "struct" and x[1] == "Function" for x in fs[1])
         ff = fs[1][0][2] if f_ok else {}
         chk.check(R2, f_ok and ff.get("control") == ("sym", "FUNCTION_CONTROL") and ff.get("result") == tok("types", ("rt", "DEF")) and
                   isinstance(ff.get("blocks"), tuple) and ff["blocks"][:2] == ("contents", "blocks") and ff.get("start_block") == tok("blocks", ("id", "LABEL")),
                   "convert:function-record", "function record is %s" % str(ff)[:300], WC)
+        f2 = fs[1][1][2] if f_ok else {}
+        b2 = f2.get("blocks")
+        s2 = f2.get("start_block")
+        chk.check(R2, f_ok and f2.get("result") == tok("types", ("rt", "DEF2")) and isinstance(b2, tuple) and b2[0] == "contents" and b2[1] != "blocks"
+                  and isinstance(s2, tuple) and s2[0] == "token" and s2[1] == b2[1] and s2[2] == ("id", "LABEL3"),
+                  "convert:second-function-record", "second function record is %s (expected: its own result type, the blocks appended after the first function "
+                  "was finished, starting at its own first block)" % str(f2)[:300], WC)
     # LiftStorage: id -> token map (symbolic evaluation)
     from ..symeval import SymEval, Hooks, NONE, Panic as SPanic
 
